@@ -28,6 +28,9 @@ type MitigationParams struct {
 	// EpochAssign: the replica is unassigned at first; a new cluster map with a HIGHER epoch but a LOWER
 	// revision id assigns it (as after an unsafe fail-over): from then on it is a listed copy
 	EpochAssign bool `json:"epoch_assign"`
+	// Grow (with EpochAssign): the new map does not assign an existing (unassigned) slot but lists an ADDITIONAL
+	// copy: the replica count goes from replicas-1 to replicas
+	Grow bool `json:"grow"`
 	// TransientEnd: once the feeds have gone static the stream ends with a transient cause and is re-opened;
 	// an event at or below the threshold already established then arrives
 	TransientEnd bool `json:"transient_end"`
@@ -55,6 +58,7 @@ func feedMenu() [][]gocbcore.SimPersist {
 		{st(uA, 1), st(uB, 3)},                          // branch change with a higher seqno
 		{{Err: tmp}, st(uA, 2), {Err: busy}, st(uA, 3)}, // transient observe errors
 		{st(uA, 0), st(uA, 2)},                          // nothing persisted at first, never reaches 3
+		{st(uB, 3), st(uB, 3), st(uA, 3)},               // only the vbUUID changes (same persisted seqno): agreement is reached without any seqno moving
 	}
 }
 
@@ -84,6 +88,7 @@ func init() {
 				{Scenario: "c07_gate", Params: mustJSON(MitigationParams{Replicas: 1, ConfigBump: true}), Bound: b, Shards: 8},
 				{Scenario: "c07_gate", Params: mustJSON(MitigationParams{Replicas: 1, CloseAt: true}), Bound: b, Shards: 8},
 				{Scenario: "c07_gate", Params: mustJSON(MitigationParams{Replicas: 1, EpochAssign: true}), Bound: b - 1, Shards: 8, Note: "a cluster map with a higher epoch but a lower revision id assigns the replica: it counts from then on"},
+				{Scenario: "c07_gate", Params: mustJSON(MitigationParams{Replicas: 2, EpochAssign: true, Grow: true}), Bound: 0, Shards: 16, Note: "a new cluster map lists an ADDITIONAL copy (replica count raised while the existing copies stay put): it counts from then on"},
 				{Scenario: "c07_gate", Params: mustJSON(MitigationParams{Replicas: 1, TransientEnd: true}), Bound: b - 1, Shards: 8, Note: "transient end and re-open once the feeds are static: the established threshold still applies"},
 				{Scenario: "c07_gate", Params: mustJSON(MitigationParams{Replicas: 1, TransientEnd: true, FailoverAtEnd: true}), Bound: b - 1, Shards: 8, Note: "the re-opened stream comes back under another vbUUID: the threshold established so far still applies"},
 				{Scenario: "c07_gate", Params: mustJSON(MitigationParams{Replicas: 1, TransientEnd: true, RollbackAtEnd: true}), Bound: b - 1, Shards: 8, Note: "the re-open is answered with a rollback: what the copies reported before it still counts (they may never report again)"},
@@ -204,6 +209,16 @@ func gateMain(p MitigationParams) {
 	if p.Unassigned || p.EpochAssign {
 		lateNode = c.VbMap[0][p.Replicas]
 		c.VbMap[0][p.Replicas] = -1
+		if p.Grow {
+			c.VbMap[0] = c.VbMap[0][:p.Replicas] // the slot does not exist yet
+			c.Replicas = p.Replicas - 1          // (the bucket is configured with one replica less)
+		}
+	}
+	slot := func(cp int) int {
+		if cp >= len(c.VbMap[0]) {
+			return -1
+		}
+		return c.VbMap[0][cp]
 	}
 	if p.Hole {
 		c.VbMap[0][1] = -1
@@ -217,7 +232,7 @@ func gateMain(p MitigationParams) {
 	var picks []int
 	listed := 0
 	for cp := 0; cp <= p.Replicas; cp++ {
-		if c.VbMap[0][cp] < 0 && !p.EpochAssign {
+		if slot(cp) < 0 && !p.EpochAssign {
 			picks = append(picks, -1)
 			continue
 		}
@@ -245,7 +260,7 @@ func gateMain(p MitigationParams) {
 	var maxQualified uint64
 	var copies []int
 	for cp := 0; cp <= p.Replicas; cp++ {
-		if c.VbMap[0][cp] >= 0 {
+		if slot(cp) >= 0 {
 			copies = append(copies, cp)
 		}
 	}
@@ -362,7 +377,12 @@ func gateMain(p MitigationParams) {
 			for i := range c.VbMap {
 				nm[i] = append([]int{}, c.VbMap[i]...)
 			}
-			nm[0][p.Replicas] = lateNode
+			if p.Grow {
+				nm[0] = append(nm[0], lateNode)
+				c.Replicas = p.Replicas
+			} else {
+				nm[0][p.Replicas] = lateNode
+			}
 			c.VbMap = nm
 			c.RevEpoch++
 			c.RevID = 0 // lower than before: only the epoch says that this map is newer
